@@ -42,6 +42,10 @@
 // interpolation; Model always also holds the plain value of every such
 // attribute (computed by Eval, the package's own evaluator), which is what the
 // YAML rendering shows.
+// Opts.ZeroWeights writes some weights as the explicit lower bound 0;
+// Opts.YAMLOrder draws the key order of the YAML mappings (so that the document
+// may end with any node, e.g. inside a block-scalar body); Opts.FileTails draws
+// how the two files end. All three are off unless asked for.
 //
 // # Renderers
 //
